@@ -16,11 +16,16 @@ Definition ffi_kk : centry := get_some (compile_named "coupe_karmarkar_karp" ffi
 Definition ffi_ckk : centry := get_some (compile_named "coupe_karmarkar_karp_complete" ffi_entries) eq_refl.
 Definition ffi_fm : centry := get_some (compile_named "coupe_fiduccia_mattheyses" ffi_entries) eq_refl.
 
-(* the seven entry points of the property, as the C caller calls them *)
-Definition coupe_greedy := entry_num ffi_arms ffi_crash ffi_greedy.
-Definition coupe_karmarkar_karp := entry_num ffi_arms ffi_crash ffi_kk.
-Definition coupe_karmarkar_karp_complete := entry_num ffi_arms ffi_crash ffi_ckk.
-Definition coupe_rcb := entry_geo ffi_arms ffi_crash ffi_rcb.
-Definition coupe_rib := entry_geo ffi_arms ffi_crash ffi_rib.
-Definition coupe_hilbert := entry_geo ffi_arms ffi_crash ffi_hilbert.
-Definition coupe_fiduccia_mattheyses := entry_fm ffi_arms ffi_crash ffi_fm.
+(* the seven entry points of the property, with the scalar parameters of their C prototypes (floats as bits) *)
+Definition coupe_greedy rust p0 weights (part_count : N) := entry_num ffi_arms ffi_crash ffi_greedy rust p0 weights [part_count].
+Definition coupe_karmarkar_karp rust p0 weights (part_count : N) := entry_num ffi_arms ffi_crash ffi_kk rust p0 weights [part_count].
+Definition coupe_karmarkar_karp_complete rust p0 weights (tolerance : N) :=
+  entry_num ffi_arms ffi_crash ffi_ckk rust p0 weights [tolerance].
+Definition coupe_rcb rust p0 dimension points weights (iter_count tolerance : N) :=
+  entry_geo ffi_arms ffi_crash ffi_rcb rust p0 dimension points weights [iter_count; tolerance].
+Definition coupe_rib rust p0 dimension points weights (iter_count tolerance : N) :=
+  entry_geo ffi_arms ffi_crash ffi_rib rust p0 dimension points weights [iter_count; tolerance].
+Definition coupe_hilbert rust p0 points weights (part_count order : N) :=
+  entry_geo ffi_arms ffi_crash ffi_hilbert rust p0 2%N points weights [part_count; order].
+Definition coupe_fiduccia_mattheyses rust p0 adjncy weights (max_passes max_moves_per_pass max_imbalance max_bad_moves_in_a_row : N) :=
+  entry_fm ffi_arms ffi_crash ffi_fm rust p0 adjncy weights [max_passes; max_moves_per_pass; max_imbalance; max_bad_moves_in_a_row].
